@@ -43,7 +43,7 @@ MIN_COUNTERS = {
                  'rt_programs_finished': 2000, 'nrt_programs': 20000},
 }
 FEATURES = ('tempo', 'cond', 'flow', 'call', 'embed', 'resched', 'beats', 'reenter',
-            'replay', 'yinf')
+            'replay', 'yinf', 'ahead')
 
 
 def plan(tier, seed):
